@@ -67,7 +67,7 @@ def digitsToNat (ds : List Char) : Nat := ds.foldl (fun acc c => acc * 10 + digi
 inductive PfResult where
   | ok (n : Nat) (e : Expr) (ljunk rjunk : List Char)
   | syntaxError               -- gettext.PluralFormsSyntaxError (incl. PluralExpressionSyntaxError)
-  | valueError                -- int() on > 4300 digits: escapes (crash)
+  | valueError                -- int() on an over-long numeral: escapes (unreachable while the limit is 0)
   deriving Repr
 
 /-- `parse_plural_forms(s, strict=False)` -/
@@ -75,7 +75,7 @@ def parsePluralForms (s : List Char) : PfResult :=
   match search [] s with
   | none => .syntaxError
   | some (lj, ds, ex, rj) =>
-    if ds.length > maxStrDigits then .valueError
+    if PluralParse.tooLong ds.length then .valueError
     else
       match PluralParse.parse ex with
       | .ok e => .ok (digitsToNat ds) e lj rj
